@@ -449,7 +449,9 @@ func TestC08_Builders(t *testing.T) {
 			labels = append(labels, "recover-changes-key-type")
 		}
 		st.Case(overlapSeen && typeChange, string(steps[0].req)+kinds, append(labels, "lifecycle-"+kinds)...)
-		st.Sample("builders", 2, func() interface{} { return map[string]interface{}{"lifecycle": kinds, "create": mustJSON(string(steps[0].req))} })
+		st.Sample("builders", 2, func() interface{} {
+			return map[string]interface{}{"lifecycle": kinds, "create": mustJSON(string(steps[0].req))}
+		})
 	})
 }
 
@@ -730,6 +732,8 @@ func TestC08_SidetreeClient(t *testing.T) {
 			labels = append(labels, "recover-changes-key-type")
 		}
 		st.Case(overlapSeen && typeChange, string(steps[0].req)+kinds, labels...)
-		st.Sample("sidetree-client", 2, func() interface{} { return map[string]interface{}{"lifecycle": kinds, "create": mustJSON(string(steps[0].req))} })
+		st.Sample("sidetree-client", 2, func() interface{} {
+			return map[string]interface{}{"lifecycle": kinds, "create": mustJSON(string(steps[0].req))}
+		})
 	})
 }
